@@ -12,8 +12,8 @@
    (Base/Utf8.v), [scalars s]: every code point is a Unicode scalar value (what str.encode accepts). *)
 From Coq Require Import ZArith List Bool.
 Import ListNotations.
-From Urwid Require Import PyBase PyList Utf8 wcwidth_table_gen str_util_gen Width
-     WidthFacts WidthProofs Utf8Proofs Utf8Total WideProofs WideExact RleProofs WidthTableProofs WidthTop.
+From Urwid Require Import PyBase PyList Utf8 wcwidth_table_gen str_util_gen str_loops_gen Width
+     WidthFacts WidthProofs Utf8Proofs Utf8Total TrimTotal OffsetTotal GenEq WideProofs WideExact RleProofs WidthTableProofs WidthTop.
 Open Scope Z_scope.
 
 (* ================= clause 1: widths are additive over character boundaries ================= *)
@@ -107,6 +107,56 @@ Theorem move_prev_char_utf8_boundary :
   move_prev_char MUtf8 (encs s) (boff s a) (boff s b) = Ok (boff s (b - 1)).
 Proof. exact top_prev_utf8. Qed.
 Print Assumptions move_prev_char_utf8_boundary.
+
+(* ================= clause 3 on ARBITRARY input (any integers; invalid or truncated UTF-8, stray
+   continuation bytes, lone lead bytes): the scans terminate, make progress and - when the start offset
+   is on a character boundary - stay in range ================= *)
+Theorem move_next_char_utf8_any_bytes :
+  forall text a b, 0 <= a < b -> b <= zlen text ->
+  exists r, move_next_char MUtf8 text a b = Ok r /\ a < r <= b /\
+    (forall t, a < t < r -> exists v, nthz text t = Some v /\ is_contb v = true) /\
+    (r = b \/ exists v, nthz text r = Some v /\ is_contb v = false).
+Proof. exact move_next_char_utf8_any. Qed.
+Print Assumptions move_next_char_utf8_any_bytes.
+
+Theorem move_prev_char_utf8_never_loops :
+  forall text a b, move_prev_char MUtf8 text a b <> Err RuntimeErrorK.
+Proof. exact move_prev_char_utf8_terminates. Qed.
+Print Assumptions move_prev_char_utf8_never_loops.
+
+Theorem move_prev_char_utf8_any_bytes :
+  forall text a b v, 0 <= a < b -> b <= zlen text -> nthz text a = Some v -> is_contb v = false ->
+  exists r, move_prev_char MUtf8 text a b = Ok r /\ a <= r < b /\
+    (exists w, nthz text r = Some w /\ is_contb w = false) /\
+    (forall t, r < t < b -> exists w, nthz text t = Some w /\ is_contb w = true).
+Proof. exact move_prev_char_utf8_any. Qed.
+Print Assumptions move_prev_char_utf8_any_bytes.
+
+(* without the boundary hypothesis "stays in range" is FALSE (the backwards scan has no lower bound):
+   witnesses, replayed on the implementation by corpus/C11 (exact correspondence) *)
+Theorem move_prev_char_utf8_stays_in_range_refuted :
+  move_prev_char MUtf8 [128; 97] 0 1 = Ok (-1) /\
+  move_prev_char MUtf8 [97; 128; 128] 1 3 = Ok 0 /\
+  move_prev_char MUtf8 [128; 128] 0 2 = Err IndexError.
+Proof. exact move_prev_char_utf8_out_of_range_witnesses. Qed.
+Print Assumptions move_prev_char_utf8_stays_in_range_refuted.
+
+Theorem move_prev_char_wide_any_bytes :
+  forall text a b, 0 <= a < b -> b <= zlen text ->
+  exists r, move_prev_char MWide text a b = Ok r /\ a <= r < b /\ (r = b - 1 \/ r = b - 2).
+Proof. exact move_prev_char_wide_any. Qed.
+Print Assumptions move_prev_char_wide_any_bytes.
+
+Theorem move_next_char_wide_any_bytes :
+  forall text a b, 0 <= a < b -> b <= zlen text ->
+  exists r, move_next_char MWide text a b = Ok r /\ (r = a + 1 \/ r = a + 2) /\ r <= b + 1.
+Proof. exact move_next_char_wide_any. Qed.
+Print Assumptions move_next_char_wide_any_bytes.
+
+(* r <= b is FALSE for a lone lead byte at the end of the range (truncated double-byte input) *)
+Theorem move_next_char_wide_stays_in_range_refuted : move_next_char MWide [164] 0 1 = Ok 2.
+Proof. exact move_next_char_wide_overshoot_witness. Qed.
+Print Assumptions move_next_char_wide_stays_in_range_refuted.
 
 (* ================= double-byte mode, EVERY byte string (no well-formedness needed):
    the offset found is never the second half of a double-byte character, is at most one
@@ -241,27 +291,19 @@ Theorem calc_trim_text_double_byte :
 Proof. exact calc_trim_text_wide. Qed.
 Print Assumptions calc_trim_text_double_byte.
 
-(* NOT proved in full generality (arbitrary bytes in every mode; correspondence and oracle only): the
-   length law of trim_text_attr_cs - the trimmed text, attribute runs and charset runs have one length. *)
-Definition trim_text_attr_cs_lengths_full : Prop :=
-  forall wcw m text attr cs sc ec t a c,
+(* trim_text_attr_cs, ARBITRARY text (any integers, valid or not) in EVERY mode: whenever it returns, the
+   trimmed text, the attribute runs and the charset runs have one length.  (calc_trim_text stays inside
+   the text in every mode: decode_one never reads past the end, within_double_byte never steps before
+   the line start.) *)
+Theorem trim_text_attr_cs_lengths :
+  forall wcw m text (attr cs : rle) sc ec t a c,
     nn attr -> nn cs -> rle_len attr = zlen text -> rle_len cs = zlen text -> 0 <= sc < ec ->
     trim_text_attr_cs wcw m text attr cs sc ec = Ok (t, a, c) ->
     rle_len a = zlen t /\ rle_len c = zlen t.
+Proof. exact TrimTotal.trim_text_attr_cs_lengths. Qed.
+Print Assumptions trim_text_attr_cs_lengths.
 
-(* proved part: whenever calc_trim_text returns a slice inside the text with 0/1 flags (any mode), the
-   trimmed text, attribute runs and charset runs have one length ... *)
-Theorem trim_text_attr_cs_lengths_partial :
-  forall wcw m text (attr cs : rle) sc ec spos epos pl pr,
-  calc_trim_text wcw m text 0 (zlen text) sc ec = Ok (spos, epos, pl, pr) ->
-  0 <= spos <= epos -> epos <= zlen text -> (pl = 0 \/ pl = 1) -> (pr = 0 \/ pr = 1) ->
-  nn attr -> nn cs -> rle_len attr = zlen text -> rle_len cs = zlen text ->
-  exists t a c, trim_text_attr_cs wcw m text attr cs sc ec = Ok (t, a, c) /\
-    zlen t = pl + (epos - spos) + pr /\ rle_len a = zlen t /\ rle_len c = zlen t.
-Proof. exact trim_text_attr_cs_lens. Qed.
-Print Assumptions trim_text_attr_cs_lengths_partial.
-
-(* ... which is the case for the UTF-8 encoding of every text that is wide enough *)
+(* it is defined (no exception) for the UTF-8 encoding of every text that is wide enough *)
 Theorem trim_text_attr_cs_lengths_utf8 :
   forall wcw, (forall c, wcw c <= 2) ->
   forall s (attr cs : rle) sc ec wl,
@@ -345,6 +387,39 @@ Theorem target_encoding_dec_string :
                            | None => repeat None (length (enc c)) end) s.
 Proof. exact RleProofs.target_encoding_dec_string. Qed.
 Print Assumptions target_encoding_dec_string.
+
+(* ================= the translated loops are what the theorems are about =================
+   Gen/str_loops_gen.v is re-translated from urwid/str_util.py and urwid/util.py on every run
+   (within_double_byte, calc_string_text_pos, calc_text_pos, move_next_char, move_prev_char, is_wide_char, the fallback
+   loop of calc_width, rle_get_at, rle_len, rle_subseg); the extracted model runs the functions assembled
+   from them ([..._g], Model/Width.v).  They equal the hand-written specifications for ALL inputs, so every
+   theorem of this file is a theorem about the regenerated text. *)
+Theorem generated_offset_functions_meet_their_specs :
+  forall wcw m text a b c d,
+  calc_text_pos_g wcw m text a b c = calc_text_pos wcw m text a b c /\
+  calc_width_g wcw m text a b = calc_width wcw m text a b /\
+  move_next_char_g m text a b = move_next_char m text a b /\
+  move_prev_char_g m text a b = move_prev_char m text a b /\
+  is_wide_char_g wcw m text a = is_wide_char wcw m text a /\
+  within_double_byte_g text a b = within_double_byte text a b /\
+  calc_trim_text_g wcw m text a b c d = calc_trim_text wcw m text a b c d.
+Proof. exact gen_offset_functions_eq. Qed.
+Print Assumptions generated_offset_functions_meet_their_specs.
+
+Theorem generated_loops_meet_their_specs :
+  forall wcw text a b col,
+  calc_string_text_pos_gen (cw wcw) text a b col = calc_string_text_pos wcw text a b col /\
+  calc_width_fallback_gen decode_one (get_width wcw) text a b = cw_utf8_loop wcw text (Z.to_nat (b - a)) a 0 b /\
+  (forall n, within_double_byte_gen n text a b = wdb n text a b).
+Proof. exact gen_loops_eq. Qed.
+Print Assumptions generated_loops_meet_their_specs.
+
+Theorem generated_rle_functions_meet_their_specs :
+  forall (r : rle) pos s e,
+  rle_get_at_gen r pos = Ok (rle_get_at r pos) /\ rle_len_gen r = Ok (rle_len r) /\
+  rle_subseg_gen r s e = Ok (rle_subseg r s e).
+Proof. exact gen_rle_eq. Qed.
+Print Assumptions generated_rle_functions_meet_their_specs.
 
 (* ================= the dumped width table meets the hypothesis of the theorems above ================= *)
 Theorem width_table_bounded : forall c, wcwidth_tab c <= 2.
